@@ -157,6 +157,29 @@ const GENERATED_ODD: &[(&str, &str)] = &[
     ("policy_json", r#"{"effect": "permit", "principal": {"op": "All"}, "action": {"op": "All"}, "resource": {"op": "All"}, "conditions": [{"kind": "when", "body": {"Record": {"if": {"Value": 1}, "__entity": {"Value": 2}, "": {"Unknown": {"name": ""}}}}}, {"kind": "when", "body": {"Slot": "?resource"}}, {"kind": "when", "body": {"decimal": []}}, {"kind": "when", "body": {"lessThan": [{"Value": 1}]}}, {"kind": "when", "body": {"nosuchfn": [{"Value": 1}]}}]}"#),
 ];
 
+/// one evaluator corner case per policy, so that each is evaluated on its own (no short-circuit
+/// by a neighbour); all of them are decided by literals only
+const GENERATED_EVAL: &[&str] = &[
+    r#"[].containsAll([{"a": 1}]) || [{"a": 1}].containsAll([]) || [].containsAny([{}]) || [{}, {}].contains({})"#,
+    r#"{"a": 1} == [1] || [1] == {"a": 1} || {} == [] || [[]] == [{}]"#,
+    r#"{"a": 1, "b": {"a": 2}}.b.a == 2 && {"a": {"a": {"a": 1}}}.a.a has a && {"if": 1}["if"] == 1"#,
+    r#""" like "***" && "" like "" && "a" like "*?*" || "\*" like "\*" || "*" like "\**""#,
+    r#"ip("0.0.0.0/0").isInRange(ip("0.0.0.0/0")) && ip("::/0").isInRange(ip("0.0.0.0/0")) || ip("1.2.3.4").isInRange(ip("::/0")) || ip("255.255.255.255/32").isInRange(ip("255.255.255.255/0"))"#,
+    r#"decimal("-922337203685477.5808").lessThan(decimal("922337203685477.5807")) && decimal("-922337203685477.5808").greaterThanOrEqual(decimal("-922337203685477.5808")) && decimal("0.0000") == decimal("-0.0")"#,
+    r#"datetime("0000-01-01").toDate() <= datetime("1969-12-31T23:59:59.999Z").toDate() && datetime("1969-12-31T23:59:59.999Z").toTime() > duration("0ms") && datetime("1970-01-01").durationSince(datetime("9999-12-31")).toMilliseconds() < 0"#,
+    r#"datetime("9999-12-31").offset(duration("9223372036854775807ms")) > datetime("1970-01-01") || datetime("0000-01-01").offset(duration("-9223372036854775808ms")) < datetime("1970-01-01")"#,
+    r#"duration("-9223372036854775808ms").toDays() < 0 && duration("9223372036854775807ms").toSeconds() > 0 && duration("0ms") == duration("-0d") && duration("1d").toHours() == 24"#,
+    r#"-(-9223372036854775808) > 0 || 0 - (-9223372036854775808) > 0 || -9223372036854775808 * -1 > 0 || 9223372036854775807 + 1 > 0"#,
+    r#"[if 1 then 2 else 3, if true then 2 else 3].contains(2) || [1 + "a"].isEmpty() || [!1].contains(true)"#,
+    r#"[1, 1, 1, 2, 2].containsAll([2, 1, 1]) && [1, [1], [[1]], {"a": [1]}].contains([[1]]) && [ip("1.1.1.1"), ip("1.1.1.1/32")].contains(ip("1.1.1.1"))"#,
+    r#"principal in [principal, resource] && principal in [] || [principal].contains(principal) && [] == [] && [[], []].containsAll([[]])"#,
+    r#"principal has "" || principal[""] == 1 || {"": 1}[""] == 1 || context has "" || principal.hasTag("") && principal.getTag("") == """#,
+    r#"(if principal == resource then principal else resource) in (if true then [principal] else resource) || (if true then 1 else principal) < 2"#,
+    r#"User::"a" is User && User::"a" is Ns::User || Action::"x" is Action && principal is User in User::"a" && principal is User in [User::"a", Group::"g"]"#,
+    r#"ip("1.1.1.1") < ip("2.2.2.2") || decimal("1.0") < decimal("2.0") || "a" < "b" || true < false || [1] < [2]"#,
+    r#"datetime("2024-01-01") < duration("1d") || duration("1d") <= datetime("2024-01-01") || datetime("2024-01-01") == duration("0ms")"#,
+];
+
 const GENERATED_EXPRS: &[&str] = &["1 + 2", "principal.a.b has c", r#"User::"a""#, r#"[1, "a", {"k": User::"b"}]"#, r#"ip("1.2.3.4")"#, r#"if context.x then principal else resource"#, r#"-9223372036854775808"#, r#"--1"#, r#""\u{10FFFF}" like "*""#, r#"a::b::"c""#];
 
 const GENERATED_SCHEMAS: &[&str] = &[
@@ -207,7 +230,23 @@ fn nested(depth: usize) -> Vec<(&'static str, String)> {
     out
 }
 
+/// documents of the corpus that belong together (same directory): the entities, schema and a few
+/// requests that match a policy file, so that faulted policies are evaluated against real data
+pub struct Bundle {
+    pub entities: Entities,
+    pub schema: Option<Schema>,
+    pub requests: Vec<Request>,
+}
+
+fn bundle_key(name: &str) -> String {
+    match name.rfind("__") {
+        Some(i) => name[..i].to_string(),
+        None => name.to_string(),
+    }
+}
+
 pub struct Pools {
+    pub bundles: std::collections::BTreeMap<String, Bundle>,
     pub seeds: Vec<SeedDoc>,
     /// (seed index, kind of exhaustive fault, position) enumerated for the quick tier
     pub exhaustive: Vec<(u32, u8, u32)>,
@@ -260,6 +299,10 @@ pub fn pools() -> &'static Pools {
         }
         for (i, p) in GENERATED_POLICIES.iter().enumerate() {
             seeds.push(SeedDoc { name: format!("gen_policy_{i}"), kind: "policies", bytes: p.as_bytes().to_vec() });
+        }
+        for (i, body) in GENERATED_EVAL.iter().enumerate() {
+            seeds.push(SeedDoc { name: format!("gen_eval_{i}"), kind: "policies", bytes: format!("permit(principal, action, resource) when {{ {body} }};\nforbid(principal, action, resource) unless {{ {body} }};").into_bytes() });
+            seeds.push(SeedDoc { name: format!("gen_eval_expr_{i}"), kind: "expression", bytes: body.as_bytes().to_vec() });
         }
         for (i, p) in GENERATED_EXPRS.iter().enumerate() {
             seeds.push(SeedDoc { name: format!("gen_expr_{i}"), kind: "expression", bytes: p.as_bytes().to_vec() });
@@ -431,6 +474,71 @@ pub fn pools() -> &'static Pools {
             Request::new(u("U::\"a\""), u("Action::\"x\""), u("U::\"b\""), Context::empty(), None).expect("req"),
         ];
         let entities = Entities::from_json_value(json!([{"uid": {"type": "User", "id": "alice"}, "attrs": {"level": 3, "a": {"b": {"c": 1}}}, "parents": [{"type": "Group", "id": "g"}]}, {"uid": {"type": "U", "id": "a"}, "attrs": {"flag": true}, "parents": []}]), None).expect("entities");
+        // bundles
+        let mut bundles = std::collections::BTreeMap::new();
+        let keys: std::collections::BTreeSet<String> = seeds.iter().filter(|s| s.name.starts_with("cli__")).map(|s| bundle_key(&s.name)).collect();
+        for key in keys {
+            let built = std::panic::catch_unwind(std::panic::AssertUnwindSafe(|| {
+                let text_of = |suffix: &str| seeds.iter().find(|s| bundle_key(&s.name) == key && s.name.ends_with(suffix)).and_then(|s| String::from_utf8(s.bytes.clone()).ok());
+                let schema = text_of("schema.cedarschema").and_then(|t| Schema::from_cedarschema_str(&t).ok().map(|x| x.0));
+                let ents_text = text_of("entities.json").or_else(|| text_of("entity.json"))?;
+                let entities = Entities::from_json_str(&ents_text, None).ok()?;
+                let mut requests = vec![];
+                if let Some(rt) = text_of("request.json") {
+                    if let Ok(v) = serde_json::from_str::<Value>(&rt) {
+                        let g = |k: &str| v.get(k).and_then(|x| x.as_str()).and_then(|x| EntityUid::from_str(x).ok());
+                        if let (Some(p), Some(a), Some(r)) = (g("principal"), g("action"), g("resource")) {
+                            let ctx = Context::from_json_value(v.get("context").cloned().unwrap_or(json!({})), None).unwrap_or_else(|_| Context::empty());
+                            if let Ok(rq) = Request::new(p, a, r, ctx, None) {
+                                requests.push(rq);
+                            }
+                        }
+                    }
+                }
+                // a few requests over the bundle's own entities and the actions its policies mention
+                let uids: Vec<EntityUid> = {
+                    let mut u: Vec<EntityUid> = entities.iter().map(|e| e.uid()).collect();
+                    u.sort_by_key(|x| x.to_string());
+                    u
+                };
+                let mut actions: Vec<String> = vec![];
+                for sd in seeds.iter().filter(|sd| bundle_key(&sd.name) == key && sd.kind == "policies") {
+                    let t = String::from_utf8_lossy(&sd.bytes).to_string();
+                    let mut rest = t.as_str();
+                    while let Some(i) = rest.find("Action::\"") {
+                        let tail = &rest[i + 9..];
+                        if let Some(j) = tail.find('"') {
+                            let a = format!("Action::\"{}\"", &tail[..j]);
+                            if !actions.contains(&a) {
+                                actions.push(a);
+                            }
+                            rest = &tail[j..];
+                        } else {
+                            break;
+                        }
+                    }
+                }
+                let ctx = text_of("context.json").and_then(|t| Context::from_json_str(&t, None).ok()).unwrap_or_else(Context::empty);
+                'outer: for p in uids.iter().take(4) {
+                    for a in actions.iter().take(4) {
+                        for r in uids.iter().rev().take(3) {
+                            if let Ok(a) = EntityUid::from_str(a) {
+                                if let Ok(rq) = Request::new(p.clone(), a, r.clone(), ctx.clone(), None) {
+                                    requests.push(rq);
+                                }
+                            }
+                            if requests.len() >= 14 {
+                                break 'outer;
+                            }
+                        }
+                    }
+                }
+                Some(Bundle { entities, schema, requests })
+            }));
+            if let Ok(Some(b)) = built {
+                bundles.insert(key, b);
+            }
+        }
         let exhaustive_quick: Vec<(u32, u8, u32)> = exhaustive
             .iter()
             .copied()
@@ -442,7 +550,7 @@ pub fn pools() -> &'static Pools {
                 sd.bytes.len() <= 1024 || sd.name.starts_with("gen_") || pos % 3 == 0
             })
             .collect();
-        Pools { seeds, exhaustive, exhaustive_quick, schemas, requests, entities }
+        Pools { bundles, seeds, exhaustive, exhaustive_quick, schemas, requests, entities }
     })
 }
 
@@ -975,6 +1083,22 @@ impl Pipe<'_> {
         for r in &p.requests {
             if let Some(resp) = self.stage("authorize", || Authorizer::new().is_authorized(r, ps, &p.entities)) {
                 self.stage("render auth errors", || resp.diagnostics().errors().map(|e| format!("{e} {e:?}").len()).sum::<usize>());
+            }
+        }
+        // the documents stored next to this one: its own entities, schema and requests
+        if let Some(b) = p.bundles.get(&bundle_key(&self.case.seed_name)) {
+            self.obs.count("reach.evaluated_against_own_bundle");
+            for r in &b.requests {
+                if let Some(resp) = self.stage("authorize (bundle)", || Authorizer::new().is_authorized(r, ps, &b.entities)) {
+                    self.stage("render auth errors (bundle)", || resp.diagnostics().errors().map(|e| format!("{e} {e:?}").len()).sum::<usize>());
+                }
+            }
+            if let Some(sc) = &b.schema {
+                let v = Validator::new(sc.clone());
+                if let Some(res) = self.stage("validate (bundle schema)", || v.validate(ps, ValidationMode::Strict)) {
+                    self.stage("render validation result (bundle)", move || res.to_string().len() + res.validation_errors().map(|e| format!("{e:?}").len()).sum::<usize>());
+                }
+                self.stage("validate_with_level (bundle schema)", || v.validate_with_level(ps, ValidationMode::Permissive, 2).validation_passed());
             }
         }
     }
@@ -1604,7 +1728,7 @@ impl World for StorageFaults {
         ]
     }
     fn reach_probes(&self) -> Vec<&'static str> {
-        vec!["reach.parsed_ok", "reach.validated", "fault.reader_hard_error", "fault.reader_interrupted"]
+        vec!["reach.parsed_ok", "reach.validated", "reach.evaluated_against_own_bundle", "fault.reader_hard_error", "fault.reader_interrupted"]
     }
 }
 
